@@ -862,3 +862,139 @@ theorem getitem_refines_mask2_span [Inhabited α] (L : Lazy α) (b : Shape) (key
       exact hsome
 
 end TdVerif.C08
+
+namespace TdVerif.C08
+
+theorem catResults_empty (rs : List (LRes α)) (cd : Nat) (r : LRes α) (h : catResults rs cd = some r)
+    (hall : ∀ x ∈ rs, ∃ bb, x = .empty bb) :
+    ∃ b0 rest, rs = .empty b0 :: rest ∧ r = .empty b0 := by
+  unfold catResults at h
+  split at h
+  · rename_i hany
+    exfalso
+    obtain ⟨x, hx, hbad⟩ := List.any_eq_true.mp hany
+    obtain ⟨bb, rfl⟩ := hall x hx
+    simp at hbad
+  cases rs with
+  | nil => simp at h
+  | cons r0 rest =>
+    simp only at h
+    generalize hg : List.flatMap _ (r0 :: rest) = ms at h
+    have hms : ms = [] := by
+      rw [← hg]
+      apply List.flatMap_eq_nil_iff.mpr
+      intro x hx
+      obtain ⟨bb, rfl⟩ := hall x hx
+      rfl
+    rw [hms] at h
+    obtain ⟨b0, rfl⟩ := hall r0 (by simp)
+    simp only [Option.some.injEq] at h
+    exact ⟨b0, rest, rfl, h.symm⟩
+
+theorem sum_eq_zero_all : ∀ (l : List Nat), l.sum = 0 → ∀ x ∈ l, x = 0
+  | [], _, x, hx => by simp at hx
+  | a :: r, h, x, hx => by
+    simp only [List.sum_cons] at h
+    simp only [List.mem_cons] at hx
+    rcases hx with rfl | hx
+    · omega
+    · exact sum_eq_zero_all r (by omega) x hx
+
+/-- a row of the mask that keeps nothing: the sub-read returns an empty stack with the dense batch size -/
+theorem span_row_empty [Inhabited α] (L : Lazy α) (b : Shape) (keys : List String) (feat : String → Shape)
+    (hU : Uniform L b keys feat) (hne0 : L.members ≠ []) (pre post : List Ix) (m : T Bool)
+    (hpre : BasicPre pre) (hpd : preDims pre + 1 = L.sd) (hpost : Basic post)
+    (hm : m.shape = [at0 b (preDims pre), L.members.length])
+    (ps qs : Shape) (i : Nat) (hi : i < at0 b (preDims pre))
+    (hrowshape : idxShape (pre ++ .mask (m.select 0 i) :: post)
+        ((b.eraseIdx (preDims pre)).insertIdx (preDims pre) L.members.length)
+      = some (ps ++ (nonzero (m.select 0 i)).length :: qs))
+    (hzero : (nonzero (m.select 0 i)).length = 0)
+    (Li : Lazy α) (h1 : lazyGetCore L (List.replicate (preDims pre) Ix.full ++ [.int (i : Int)]) = some (.lazy Li))
+    (ri : LRes α) (h2 : lazyGetCore Li (pre ++ .mask (m.select 0 i) :: post) = some ri) :
+    ri = .empty (ps ++ 0 :: qs) := by
+  obtain ⟨Li', hLi', hsdi, hleni, hUi⟩ := get_full_int_structure L b keys feat hU hne0 (preDims pre) i
+    (by omega) hi _ h1
+  obtain rfl : Li = Li' := by injection hLi'
+  have hnei : Li.members ≠ [] := by
+    intro hh; rw [hh] at hleni; exact hne0 (List.length_eq_zero_iff.mp hleni.symm)
+  have hsdi' : Li.sd = preDims pre := by omega
+  have hrow : (m.select 0 i).shape = [Li.members.length] := by simp [T.select, hm, hleni]
+  obtain ⟨res, hres, hcase⟩ := get_mask1_structure Li pre post (m.select 0 i) hpre hsdi'.symm
+    (fun it h => (hpost it h).2) hrow ri h2
+  obtain ⟨hresl, _⟩ := allSome_map_getElem _ _ _ hres
+  have hcnt : res.length = 0 := by
+    have h3 : (nonzero (m.select 0 i)).length
+        = ((List.range Li.members.length).filter fun j => (m.select 0 i).get [j]).length := by
+      rw [nonzero_rank1 _ _ hrow]; simp
+    rw [hresl, ← h3]; exact hzero
+  have hresnil : res = [] := List.length_eq_zero_iff.mp hcnt
+  rcases hcase with ⟨_, bb, rfl⟩ | ⟨hnn, _⟩
+  · -- the batch size, from stage 3
+    have hbLi : (absL Li).batch = (b.eraseIdx (preDims pre)).insertIdx (preDims pre) L.members.length := by
+      rw [absL_batch_eq Li _ keys feat hUi hnei, hsdi', hleni]
+    have hdi : (absL Li).index (pre ++ .mask (m.select 0 i) :: post)
+        = some ((absL Li).mapLeaves (ps ++ (nonzero (m.select 0 i)).length :: qs)
+            (idxT (pre ++ .mask (m.select 0 i) :: post))) := by
+      unfold TD.index
+      rw [hbLi, hrowshape]; rfl
+    obtain ⟨hpa, hpne⟩ := basicPre_noAdv pre hpre
+    have hpostadv : post.countP Ix.isAdv = 0 := by
+      simpa [List.countP_eq_zero] using fun it h => (hpost it h).1
+    have hitem := (splitRec_pre_mask (m.select 0 i) post pre Li.sd hpre hsdi'.symm).1
+    have hok := getitem_refines_mask1 Li _ keys feat hUi hnei (pre ++ .mask (m.select 0 i) :: post)
+      (plainM_pre_mask _ (by rw [hrow]; rfl) post pre Li.sd hpre hsdi'.symm)
+      (by
+        intro it hit
+        simp only [List.mem_append, List.mem_cons] at hit
+        rcases hit with h | rfl | h
+        · exact hpne it h
+        · simp
+        · exact (hpost it h).2)
+      (by simp [AtMostOneAdv, List.countP_append, List.countP_cons, hpa, hpostadv, Ix.isAdv])
+      (m.select 0 i) hitem _ h2 _ hdi
+    have hbb : bb = ps ++ (nonzero (m.select 0 i)).length :: qs := hok
+    rw [hbb, hzero]
+  · exact absurd hresnil hnn
+
+/-- **Reads with a rank-2 mask spanning the stack dim that keeps nothing**: an empty stack whose
+batch size is the dense one -/
+theorem getitem_mask2_span_none [Inhabited α] (L : Lazy α) (b : Shape) (keys : List String) (feat : String → Shape)
+    (hU : Uniform L b keys feat) (hne0 : L.members ≠ []) (pre post : List Ix) (m : T Bool)
+    (hpre : BasicPre pre) (hpd : preDims pre + 1 = L.sd) (hpost : Basic post)
+    (hm : m.shape = [at0 b (preDims pre), L.members.length]) (hnone : (nonzero m).length = 0)
+    (r : LRes α) (hr : lazyGetCoreM L (pre ++ .mask m :: post) = some r)
+    (d : TD α) (hd : (absL L).index (pre ++ .mask m :: post) = some d) :
+    r = .empty d.batch := by
+  obtain ⟨md, hmd⟩ : ∃ md, md = preDims pre := ⟨_, rfl⟩
+  have hpostne : ∀ it ∈ post, it ≠ Ix.ell := fun it h => (hpost it h).2
+  have hsd : L.sd = md + 1 := by omega
+  have hmdb : md < b.length := by have := hU.hsd; omega
+  have hB : (absL L).batch = b.insertIdx (md + 1) L.members.length := by
+    rw [absL_batch_eq L b keys feat hU hne0, hsd]
+  simp only [TD.index, Option.map_eq_some_iff] at hd
+  obtain ⟨s, hs, rfl⟩ := hd
+  rw [hB] at hs
+  obtain ⟨ps, qs, hps, hqs, hplen, hs', hrowsh, hso⟩ :=
+    span_shapes b L.members.length md hmdb pre post m hpre hmd.symm (by rw [hmd]; exact hm) s hs
+  rw [hmd] at hrowsh
+  obtain ⟨rs, hrl, hcat, hrows⟩ := span_unroll L b keys feat hU hne0 pre post m hpre hpd hpostne hm r hr
+  have hnz : (nonzero m).length = ((List.range rs.length).map fun i => (nonzero (m.select 0 i)).length).sum := by
+    rw [nonzero_rank2 m _ _ hm, length_flatMap_sum, hrl]; simp
+  have hzero : ∀ i, i < rs.length → (nonzero (m.select 0 i)).length = 0 := by
+    intro i hi
+    apply sum_eq_zero_all _ (by rw [← hnz]; exact hnone)
+    exact List.mem_map.mpr ⟨i, List.mem_range.mpr hi, rfl⟩
+  have hall : ∀ i (hi : i < rs.length), rs[i] = .empty (ps ++ 0 :: qs) := by
+    intro i hi
+    obtain ⟨Li, h1, h2⟩ := hrows i hi
+    exact span_row_empty L b keys feat hU hne0 pre post m hpre hpd hpost hm ps qs i (by rw [← hrl]; exact hi)
+      (hrowsh i) (hzero i hi) Li h1 rs[i] h2
+  obtain ⟨b0, rest, hrs, rfl⟩ := catResults_empty rs (outRank pre) r hcat
+    (by intro x hx; obtain ⟨i, hi, rfl⟩ := List.getElem_of_mem hx; exact ⟨_, hall i hi⟩)
+  have h0 := hall 0 (by rw [hrs]; simp)
+  simp only [hrs, List.getElem_cons_zero, LRes.empty.injEq] at h0
+  show LRes.empty b0 = LRes.empty s
+  rw [h0, hs', hnone]
+
+end TdVerif.C08
